@@ -49,7 +49,7 @@ func load() {
 }
 
 // Reset re-arms the replay state (used by the replay test between runs).
-func Reset() { loaded = false; nChoice = 0; Failed = nil; AssumeFailed = false }
+func Reset() { loaded = false; nChoice = 0; Failed = nil; AssumeFailed = false; resetConc() }
 
 func in(name string) uint64 { load(); return rf.Inputs[name] }
 
